@@ -47,7 +47,7 @@ def plans(tier):
     if tier == "quick":
         return [("d1-1d", 1, 6), ("d1-2d", 1, 16), ("d2-lean1", 1, 8), ("d2-lean2", 1, 32), ("d2-lean3", 1, 48), ("d1-win-q", 4, 3), ("d1-pad-udf", 16, 1),
                 ("d3-inplace-dmd", 1, 16), ("d3-inplace-ddm", 1, 32), ("d3-inplace-mmd", 1, 8), ("d2-inplace2", 1, 12)]
-    return [("d1-1d-wide", 3, 1), ("d1-2d", 3, 1), ("d2-lean1", 2, 1), ("d2-lean2", 1, 2), ("d2-lean3", 1, 2), ("d1-win", 32, 1), ("d1-pad-udf", 16, 1),
+    return [("d1-1d-wide", 2, 1), ("d1-2d", 2, 1), ("d2-lean1", 2, 1), ("d2-lean2", 1, 2), ("d2-lean3", 1, 2), ("d1-win", 32, 1), ("d1-pad-udf", 16, 1),
             ("d3-inplace-dmd", 1, 1), ("d3-inplace-ddm", 1, 2), ("d3-inplace-mmd", 1, 1), ("d2-inplace2", 2, 1)]
 
 
@@ -55,12 +55,18 @@ def run(chk):
     rd = tlc.new_rundir("C10")
     try:
         add_models(chk, ["TaskGraph:pure", "TaskGraph:impure-mutant"])
-        progcheck.run_plans(chk, rd, plans(chk.tier), OBS, opts={"no_compute": True, "orders": 3 if chk.tier == "quick" else 8},
-                            selftest=_corrupt)
+        if chk.tier == "quick":
+            progcheck.run_plans(chk, rd, plans(chk.tier), OBS, opts={"no_compute": True, "orders": 3}, selftest=_corrupt)
+        else:
+            # one corpus at a time: recorded executions carry the fingerprints of all live values before and after every
+            # task, and all corpora of the thorough tier together do not fit in memory (50 GB)
+            for n, p in enumerate(progcheck.dev_filter(plans(chk.tier))):
+                progcheck.run_plans(progcheck.SubCheck(chk, p[0]), rd, [p], OBS, opts={"no_compute": True, "orders": 6},
+                                    selftest=_corrupt if n == 0 else None)
         chk.cov["exhaustive"] = False
         chk.cov["rule"] = ("one merged graph per enumerated behaviour (all live collections; corpora in parts incl. sliding-window kernels and "
                            "setitem / mask / out= histories), graphs of at most 70 tasks; one recorded execution per topological order (3 "
-                           "quick / 8 thorough: LIFO, FIFO, max-id, min-id, seeded random); distinct = recorded executions")
+                           "quick / 6 thorough: LIFO, FIFO, max-id, min-id, seeded random); distinct = recorded executions")
         chk.assumptions += ["schedules are explored at task granularity by the driver's serial scheduler; thread interleavings inside the "
                             "threaded scheduler are not controlled (DESIGN 2.3)",
                             "a covering set of orders, not all topological orders, is executed per graph; the model-level result "
